@@ -70,6 +70,15 @@ THEOREMS = [
     "Verif.C14.add_data_reorder_witness",
     "Verif.C14.defaults_misaligned_witness",
     "Verif.C14.scatter_duplicate_witness",
+    "Verif.C14.noise_free_residual_zero",
+    "Verif.C14.noise_free_by_name_residual_zero",
+    "Verif.C14.generating_values_minimise",
+    "Verif.C14.fit_done",
+    "Verif.C14.refit_from_optimum_unchanged",
+    "Verif.C14.recovers_generating_parameters",
+    "Verif.C14.more_noise_free_data_keeps_optimum",
+    "Verif.C14.residualV_eq",
+    "Verif.C14.collision_breaks_recovery",
 ]
 RULE = (
     "A case is a script of user actions on a real FdFit (add dataset with renamings/numeric overrides, set value/"
